@@ -8,6 +8,28 @@ NOTE_COMMON = ('Trusted: Coq 8.16.1 kernel + vm_compute, mathcomp 1.15; the hand
                'dyadics); float64 rounding and NumPy/SciPy/LAPACK base-point primitives are modelled as exact inputs, not verified. ')
 
 CLAIMED = {
+ 'C01': dict(
+   text='Theorems (every field of characteristic 0, every D, every input series; closed under the global context): each coefficient '
+        'recurrence of the model (exp, log, real/integer powers, sqrt, reciprocal, square, sin/cos, tan, arcsin/arccos, arctan, sinh/cosh, '
+        'tanh, the derivative-convolution helper behind expm1/log1p/erf/erfi/logit/expit, the Faa-di-Bruno helper behind '
+        'gammaln/psi/polygamma/hyperu, the ODE helper behind dawsn) returns exactly the coefficients of the formal composition F o (x - x0) '
+        'for any F satisfying the function\'s defining differential-algebraic relation (specification side: mathcomp polynomials, no '
+        'recurrence). The model follows algorithms.py line by line and is compared with the implementation on every run: 28 functions x '
+        'call routes x D x P x shapes x coefficient patterns, every (direction, element) series evaluated by vm_compute over exact rationals.',
+   note=NOTE_COMMON + 'Base values f(x0), f^(n)(x0) come from NumPy/SciPy (not proved); the step from formal composition to the analytic '
+        'Taylor expansion of f(x(t)) is classical analysis, not formalised; complex coefficients are not generated.',
+   technique='Coq proof (strong induction against mathcomp polynomial composition) + model/implementation correspondence by vm_compute',
+   design='4/C01'),
+ 'C02': dict(
+   text='Theorems (all D, all series): the model kernels compute the Cauchy product, the unique quotient z with z*y = x mod t^D, the '
+        'reciprocal, the square, integer and real powers; NumPy right-aligned broadcasting rule of the operator layer is symmetric/reflexive. '
+        'The operator layer (operand kinds, reflected and in-place forms, aliasing, broadcasting incl. constant arrays of higher rank, dtype '
+        'promotion) is compared on every run against the Coq model (real cases) AND an independent exact Gaussian-rational reference '
+        '(all cases, tolerance 0 where float64 is exact).',
+   note=NOTE_COMMON + 'Complex operands are decided by the exact Python reference only (Coq model runs over Qc); dtype promotion is a NumPy '
+        'runtime fact decided by value comparison.',
+   technique='Coq proof of the ring kernels + exact differential testing of the operator layer (Coq model and Fraction reference)',
+   design='4/C02'),
  'C15': dict(
    text='Theorems (all N>=1, all d, closed under the global context): the multi-index enumeration contains every multi-index of degree d '
         'exactly once. Bounded theorem by kernel reflection over exact rationals: the interpolation identity sum_j Gamma[i,j] ray_j^a = '
